@@ -139,6 +139,12 @@ func callOracle(f OracleFn, a []Val) (key, detail string) {
 		if r := recover(); r != nil {
 			key = "panic"
 			detail = fmt.Sprintf("panic: %v", r)
+			// an oracle may re-panic with a structured message "<KEYPREFIX>-PANIC/<rest>: text"
+			if s, ok := r.(string); ok && strings.Contains(s, "-PANIC/") {
+				if i := strings.Index(s, ": "); i > 0 {
+					key = strings.Replace(s[:i], "-PANIC/", "/", 1) + "/panic"
+				}
+			}
 		}
 	}()
 	return f(a)
@@ -171,6 +177,8 @@ func Guarded(limit time.Duration, f func()) (panicked bool, timedOut bool, alloc
 	return
 }
 
+var realStdout = os.Stdout
+
 func main() {
 	prop := flag.String("prop", "", "property id")
 	tier := flag.String("tier", "quick", "quick|thorough")
@@ -180,6 +188,10 @@ func main() {
 	list := flag.Bool("list", false, "list impl entry points")
 	flag.Parse()
 	debug.SetMemoryLimit(12 << 30)
+	// the code under test prints debugging output in places; keep it out of our stdout
+	if dn, err := os.OpenFile(os.DevNull, os.O_WRONLY, 0); err == nil {
+		os.Stdout = dn
+	}
 
 	if *list {
 		var names []string
@@ -187,7 +199,7 @@ func main() {
 			names = append(names, n)
 		}
 		sort.Strings(names)
-		fmt.Println(strings.Join(names, "\n"))
+		fmt.Fprintln(realStdout, strings.Join(names, "\n"))
 		return
 	}
 	if *replay != "" {
@@ -265,10 +277,10 @@ func doReplay(path string) int {
 		}
 		key, detail := callOracle(f, av.L)
 		if key == "" {
-			fmt.Println("REPLAY: property holds on this input now")
+			fmt.Fprintln(realStdout, "REPLAY: property holds on this input now")
 			return 0
 		}
-		fmt.Printf("REPLAY: fails key=%s detail=%s\n", key, detail)
+		fmt.Fprintf(realStdout, "REPLAY: fails key=%s detail=%s\n", key, detail)
 		return 1
 	case "case":
 		f, ok := impls[r.Name]
@@ -277,12 +289,12 @@ func doReplay(path string) int {
 			return 2
 		}
 		v := callImpl(f, av.L)
-		fmt.Printf("REPLAY: %s %s => %s (model expected %s)\n", r.Name, r.Args, v.String(), r.Expect)
+		fmt.Fprintf(realStdout, "REPLAY: %s %s => %s (model expected %s)\n", r.Name, r.Args, v.String(), r.Expect)
 		if v.String() == r.Expect {
 			return 0
 		}
 		return 1
 	}
-	fmt.Println("REPLAY: nothing executable in this replay (kind=" + r.Kind + ")")
+	fmt.Fprintln(realStdout, "REPLAY: nothing executable in this replay (kind=" + r.Kind + ")")
 	return 1
 }
